@@ -119,6 +119,30 @@ def _alpha_lambdas(body: List[ast.stmt], pre: str) -> List[ast.stmt]:
     return body
 
 
+def opaque_decorators(fn: ast.FunctionDef, registered: bool = False) -> bool:
+    """True when a decorator may change what the name denotes.  Transparent: functools
+    memoisation of a function (`lru_cache`, `lru_cache(...)`, `cache`): the memoised function
+    denotes its body as long as it is pure, which C03.R4 checks; and, on request, a bare
+    `<x>_registry.register` (FunctionRegistry.register returns the function it is given).
+    Registered components are the vocabulary of the rules, so by default they stay calls."""
+    for d in fn.decorator_list:
+        t = ast.unparse(d.func if isinstance(d, ast.Call) else d)
+        if registered and not isinstance(d, ast.Call) and t.endswith('_registry.register'):
+            continue
+        if t in ('lru_cache', 'functools.lru_cache', 'cache', 'functools.cache'):
+            continue
+        return True
+    return False
+
+
+SHIPPED = {
+    'from_visibility', 'fully_transparent', 'partially_occluded', 'raytracing',
+    'stochastic_raytracing', 'empty', 'rooms', 'dynamic_obstacles', 'keydoor', 'crossing',
+    'teleport', 'memory', 'memory_rooms', 'reduce', 'reduce_sum', 'reduce_any', 'reduce_all',
+    'overlap', 'living_reward', 'reach_exit', 'bump_moving_obstacle', 'proportional_to_distance',
+    'getting_closer', 'getting_closer_shortest_path', 'bump_into_wall', 'actuate_door',
+    'pickndrop', 'reach_exit_memory', 'chain', 'move_agent', 'turn_agent', 'move_obstacles',
+    'actuate_box'}
 _BUILTIN_LIKE = {'get', 'copy', 'index', 'count', 'items', 'keys', 'values', 'append', 'pop',
                  'add', 'update', 'sort', 'reverse', 'join', 'split', 'format', 'issubset',
                  'union', 'extend', 'insert', 'remove', 'clear', 'any', 'all', 'max', 'min',
@@ -204,7 +228,9 @@ class Inliner:
             if f is None and name in self.cross:
                 r = self.index.resolve_name(self.module, name)
                 f = r if isinstance(r, Func) and r.cls is None else None
-            if f is None or f.node.decorator_list:
+            # a registered component is vocabulary when it is one of the shipped ones; a
+            # component added later that shipped ones delegate to is read through
+            if f is None or opaque_decorators(f.node, registered=name not in SHIPPED):
                 return None
             if name == 'factory':
                 return None
@@ -728,9 +754,11 @@ def inline_pure_exprs(index: RepoIndex, module: Module, cls, expr: ast.AST,
                 return c
             if isinstance(c.func, ast.Name):
                 r = module.functions.get(c.func.id)
-                if r is None and c.func.id in cross:
+                if r is None and (c.func.id in cross or c.func.id not in _pinned_functions()):
+                    # imported helpers: the named ones, and any that did not exist at the
+                    # pinned commit (rules cannot know them by name)
                     r = index.resolve_name(module, c.func.id)
-                if isinstance(r, Func) and r.cls is None and not r.node.decorator_list:
+                if isinstance(r, Func) and r.cls is None and not opaque_decorators(r.node):
                     target = r
             elif isinstance(c.func, ast.Attribute) and isinstance(c.func.value, ast.Name) \
                     and c.func.value.id == 'self' and cls is not None:
@@ -767,6 +795,11 @@ def inline_pure_exprs(index: RepoIndex, module: Module, cls, expr: ast.AST,
             out = _SubstNames(bound).visit(copy.deepcopy(e))
             return inline_pure_exprs(index, target.module, target.cls, out, depth - 1, cross, keep)
     return ast.fix_missing_locations(T().visit(copy.deepcopy(expr)))
+
+
+def _pinned_functions():
+    from .pinned_names import FUNCTIONS
+    return FUNCTIONS
 
 
 def inline_methods_by_name(index: RepoIndex, expr: ast.AST, depth: int = 3,
